@@ -423,7 +423,11 @@ func runC15(c *Ctx) {
 			if IsNilConst(r.Results[0]) {
 				continue
 			}
-			g, path := Guarded(get.Blocks[0], r, pass, nil)
+			// an action can reach the return directly or through the φ of a merged return
+			nArr, g, path := GuardedArrivals(get, r, 0, func(v ssa.Value) bool { return !IsNilConst(v) }, pass, nil)
+			if nArr == 0 {
+				continue
+			}
 			c.Check(g && nonVacuous(pass), "R5", "ActionSet.Get:not-expired", p.InstrPos(r), "an action is handed out only when it is not (about to be) expired", "an expired action can be handed out: "+path)
 		}
 	} else {
